@@ -27,15 +27,16 @@ private theorem collect_ok_aux (doc : Doc) : ∀ (acc : Collected),
     (acc.types.map (·.name) ++ (typeDefs doc).map (·.name)).Nodup →
     (acc.directives.map (·.name) ++ (dirDefs doc).map (·.name)).Nodup →
     ((if acc.schemaDef.isSome then 1 else 0) + (schemaDefs doc).length ≤ 1) →
+    (∀ t ∈ typeDefs doc, isDefaultName t.name = false) →
     ∃ c, doc.foldlM collectStep acc = .ok c ∧ c.types = acc.types ++ typeDefs doc ∧ c.directives = acc.directives ++ dirDefs doc
       ∧ c.schemaDef = (match acc.schemaDef with | some s => some s | none => (schemaDefs doc).head?) := by
   induction doc with
   | nil =>
-    intro acc _ _ _
+    intro acc _ _ _ _
     refine ⟨acc, rfl, by simp [typeDefs], by simp [dirDefs], ?_⟩
     cases acc.schemaDef <;> simp [schemaDefs]
   | cons d ds ih =>
-    intro acc hT hD hS
+    intro acc hT hD hS hN
     rw [List.foldlM_cons]
     cases d with
     | type t =>
@@ -45,9 +46,11 @@ private theorem collect_ok_aux (doc : Doc) : ∀ (acc : Collected),
         have := (List.nodup_append.mp hT).2.2 _ hm t.name (by simp)
         exact this rfl
       have hany := any_name_false (·.name) acc.types t.name hmem
-      simp only [collectStep, hany, Bool.false_eq_true, if_false, pure, Except.pure, bind, Except.bind]
+      have hnb : isDefaultName t.name = false := hN t (by simp [typeDefs])
+      simp only [collectStep, hany, hnb, Bool.false_eq_true, if_false, pure, Except.pure, bind, Except.bind]
       have := ih { acc with types := acc.types ++ [t] }
         (by simpa [typeDefs, List.append_assoc] using hT) (by simpa [dirDefs] using hD) (by simpa [schemaDefs] using hS)
+        (fun t' ht' => hN t' (by simp [typeDefs] at ht' ⊢; exact Or.inr ht'))
       obtain ⟨c, h1, h2, h3, h4⟩ := this
       exact ⟨c, h1, by simp [h2, typeDefs], by simp [h3, dirDefs], by simpa [schemaDefs] using h4⟩
     | directive dd =>
@@ -60,6 +63,7 @@ private theorem collect_ok_aux (doc : Doc) : ∀ (acc : Collected),
       simp only [collectStep, hany, Bool.false_eq_true, if_false, pure, Except.pure, bind, Except.bind]
       have := ih { acc with directives := acc.directives ++ [dd] }
         (by simpa [typeDefs] using hT) (by simpa [dirDefs, List.append_assoc] using hD) (by simpa [schemaDefs] using hS)
+        (by simpa [typeDefs] using hN)
       obtain ⟨c, h1, h2, h3, h4⟩ := this
       exact ⟨c, h1, by simp [h2, typeDefs], by simp [h3, dirDefs], by simpa [schemaDefs] using h4⟩
     | schema sd =>
@@ -74,31 +78,31 @@ private theorem collect_ok_aux (doc : Doc) : ∀ (acc : Collected),
         simp only [Option.isSome_none, Bool.false_eq_true, if_false, List.length_cons] at hS
         exact List.length_eq_zero_iff.mp (by omega)
       have := ih { acc with schemaDef := some sd }
-        (by simpa [typeDefs] using hT) (by simpa [dirDefs] using hD) (by simp [hds])
+        (by simpa [typeDefs] using hT) (by simpa [dirDefs] using hD) (by simp [hds]) (by simpa [typeDefs] using hN)
       obtain ⟨c, h1, h2, h3, h4⟩ := this
       exact ⟨c, h1, by simp [h2, typeDefs], by simp [h3, dirDefs], by simp [h4, hnone, schemaDefs]⟩
     | ext t =>
       simp only [collectStep, pure, Except.pure, bind, Except.bind]
-      have := ih acc (by simpa [typeDefs] using hT) (by simpa [dirDefs] using hD) (by simpa [schemaDefs] using hS)
+      have := ih acc (by simpa [typeDefs] using hT) (by simpa [dirDefs] using hD) (by simpa [schemaDefs] using hS) (by simpa [typeDefs] using hN)
       obtain ⟨c, h1, h2, h3, h4⟩ := this
       exact ⟨c, h1, by simp [h2, typeDefs], by simp [h3, dirDefs], by simpa [schemaDefs] using h4⟩
     | schemaExt t =>
       simp only [collectStep, pure, Except.pure, bind, Except.bind]
-      have := ih acc (by simpa [typeDefs] using hT) (by simpa [dirDefs] using hD) (by simpa [schemaDefs] using hS)
+      have := ih acc (by simpa [typeDefs] using hT) (by simpa [dirDefs] using hD) (by simpa [schemaDefs] using hS) (by simpa [typeDefs] using hN)
       obtain ⟨c, h1, h2, h3, h4⟩ := this
       exact ⟨c, h1, by simp [h2, typeDefs], by simp [h3, dirDefs], by simpa [schemaDefs] using h4⟩
     | other =>
       simp only [collectStep, pure, Except.pure, bind, Except.bind]
-      have := ih acc (by simpa [typeDefs] using hT) (by simpa [dirDefs] using hD) (by simpa [schemaDefs] using hS)
+      have := ih acc (by simpa [typeDefs] using hT) (by simpa [dirDefs] using hD) (by simpa [schemaDefs] using hS) (by simpa [typeDefs] using hN)
       obtain ⟨c, h1, h2, h3, h4⟩ := this
       exact ⟨c, h1, by simp [h2, typeDefs], by simp [h3, dirDefs], by simpa [schemaDefs] using h4⟩
 
 /-- Unique type names, unique directive names and at most one `schema` block: collection succeeds and returns
     exactly the definitions of the document (converse of `collect_rejects_*`). -/
 theorem collect_ok (doc : Doc) (hT : ((typeDefs doc).map (·.name)).Nodup) (hD : ((dirDefs doc).map (·.name)).Nodup)
-    (hS : (schemaDefs doc).length ≤ 1) :
+    (hS : (schemaDefs doc).length ≤ 1) (hN : ∀ t ∈ typeDefs doc, isDefaultName t.name = false) :
     ∃ c, collectDefinitions doc = .ok c ∧ c.types = typeDefs doc ∧ c.directives = dirDefs doc ∧ c.schemaDef = (schemaDefs doc).head? := by
-  have := collect_ok_aux doc {} (by simpa using hT) (by simpa using hD) (by simpa using hS)
+  have := collect_ok_aux doc {} (by simpa using hT) (by simpa using hD) (by simpa using hS) hN
   simpa [collectDefinitions] using this
 
 /-! ### documents without extensions: `build` returns exactly the declared content -/
@@ -189,7 +193,7 @@ theorem declared_parts (doc : Doc) (d : SchemaD) (h : Declared doc = some d) :
     declared content — every type, field, argument, default value, description, deprecation, directive
     definition and root, in document order. -/
 theorem build_exact_noext (doc : Doc) (d : SchemaD) (v : ValidNoExt doc d) : build doc = .ok d := by
-  obtain ⟨c, hc, hct, hcd, hcs⟩ := collect_ok doc v.uniqueTypes v.uniqueDirectives v.oneSchema
+  obtain ⟨c, hc, hct, hcd, hcs⟩ := collect_ok doc v.uniqueTypes v.uniqueDirectives v.oneSchema v.noBuiltinNames
   have hm := merged_noext doc v.noTypeExt
   obtain ⟨hts, hds, hd⟩ := declared_parts doc d v.declares
   rw [hm] at hts hds
